@@ -171,6 +171,11 @@ Proof.
   - destruct HPre as (Hs & _ & _). unfold nthZ. apply Hs. unfold n, lenZ in Hj. lia.
 Qed.
 
+Lemma group_end_cases i c :
+  (i < n /\ group_end orig i c = nthZ orig i FNaN) \/
+  (n <= i /\ group_end orig i c = fadd (fadd (group_begin orig i) (of_Z c)) (of_Z 1)).
+Proof. unfold group_end. fold n. destruct (Z.ltb_spec i n); [left | right]; auto. Qed.
+
 (* what plain_group says about a group whose index and size are in range *)
 Record good_group (g : Z * Z) : Prop := {
   gg_cond : flt (group_begin orig (fst g)) fzero || fle (group_end orig (fst g) (snd g)) fzero ||
@@ -182,66 +187,76 @@ Record good_group (g : Z * Z) : Prop := {
   gg_begin_nonnan : is_nan (group_begin orig (fst g)) = false
 }.
 
+Lemma UINF_pos : 0 < UINF.
+Proof. rewrite UINF_eq. apply pow2_pos'. lia. Qed.
+
+Lemma good_from_shape g sb ub ue :
+  group_begin orig (fst g) = FFin sb ub -> group_end orig (fst g) (snd g) = FFin false ue ->
+  wf_fl (FFin sb ub) -> 0 <= ue < UOVER -> 0 <= ford (FFin sb ub) -> flt (FFin sb ub) (FFin false ue) = true ->
+  1 <= snd g /\ snd g + 1 < 2 ^ 53 ->
+  flt (FFin sb ub) fzero || fle (FFin false ue) fzero || is_inf (fmax (FFin sb ub) (FFin false ue)) = false ->
+  is_valid_range (FFin sb ub) (get_range (FFin sb ub) (FFin false ue) (snd g)) (FFin false ue) = true ->
+  good_group g.
+Proof.
+  intros Eb Ee Hbw Hue Hfb Hbe Hcc Hcond Hvalid.
+  pose proof (range_length sb ub ue (snd g)) as Hlen.
+  pose proof (range_In sb ub ue (snd g) Hbw Hue Hfb Hbe Hcc) as HIn.
+  pose proof (range_weakly_sorted sb ub ue (snd g) Hbw Hue Hfb Hbe Hcc) as Hws.
+  pose proof (limit_facts sb ub ue (snd g) Hbw Hue Hfb Hbe) as (L1 & L2 & L3).
+  constructor; unfold group_range; rewrite ?Eb, ?Ee; auto.
+  - apply sorted_distinct_strict; [|exact Hvalid]. constructor.
+    + clear Hvalid Hlen. revert HIn Hws. generalize (get_range (FFin sb ub) (FFin false ue) (snd g)) as R.
+      induction R as [|x R IHR]; intros HIn Hws; cbn [app]; [repeat constructor|].
+      inversion Hws as [|? ? H1 H2]; subst. constructor.
+      * apply IHR; [intros; apply HIn; right; assumption | assumption].
+      * rewrite Forall_forall in *. intros z Hz. apply in_app_or in Hz. destruct Hz as [Hz|[<-|[]]]; [apply H2; exact Hz|].
+        destruct (HIn x (or_introl eq_refl)) as (u & -> & Hu). unfold Fle. apply fle_iff. cbn [is_nan ford]. repeat split; auto. lia.
+    + rewrite Forall_forall. intros z Hz. apply in_app_or in Hz. destruct Hz as [Hz|[<-|[]]].
+      * destruct (HIn z Hz) as (u & -> & Hu). unfold Fle. apply fle_iff. cbn [is_nan]. repeat split; auto.
+        cbn [ford] in *. lia.
+      * apply flt_fle. exact Hbe.
+  - rewrite Forall_forall. intros z Hz. destruct (HIn z Hz) as (u & -> & _). reflexivity.
+Qed.
+
 Lemma plain_group_good g : 0 <= fst g <= n -> 1 <= snd g <= lenZ keys -> plain_group orig g = true -> good_group g.
 Proof.
   intros Hi Hc Hp. unfold plain_group in Hp.
   apply andb_prop in Hp. destruct Hp as [Hp Hvalid]. apply andb_prop in Hp. destruct Hp as [Hcond Hbe].
-  apply negb_true_iff in Hcond.
-  set (b := group_begin orig (fst g)) in *. set (e := group_end orig (fst g) (snd g)) in *.
+  apply negb_true_iff in Hcond. unfold group_range in Hvalid.
+  remember (group_begin orig (fst g)) as b eqn:Eb. remember (group_end orig (fst g) (snd g)) as e eqn:Ee.
   pose proof Hcond as Hcond'.
   apply orb_false_iff in Hcond. destruct Hcond as [Hcond Hinf]. apply orb_false_iff in Hcond. destruct Hcond as [Hb0 He0].
-  (* shape of b *)
   assert (Hbw : is_nan b = false /\ wf_fl b).
-  { unfold b, group_begin. destruct (0 <? fst g) eqn:E.
+  { rewrite Eb. unfold group_begin. destruct (0 <? fst g) eqn:E.
     - apply Z.ltb_lt in E. destruct (orig_nth_facts (fst g - 1) ltac:(lia)) as (_ & H1 & H2). auto.
-    - split; [reflexivity|]. cbn. split; [pose proof UOVER_big; lia | reflexivity]. }
+    - split; [reflexivity|]. unfold fzero, wf_fl, representable. split; [pose proof UOVER_big; lia | reflexivity]. }
   destruct Hbw as [Hbn Hbw].
-  assert (Hfb : 0 <= ford b) by (apply flt_false in Hb0; auto; cbn in Hb0; lia).
+  assert (Hfb : 0 <= ford b) by (apply flt_false in Hb0; auto; exact Hb0).
   pose proof Hbe as Hbe'. apply flt_iff in Hbe'. destruct Hbe' as (_ & Hen & Hlt).
   unfold fmax in Hinf. rewrite Hbe in Hinf.
+  pose proof UINF_pos as HUI. pose proof UOVER_lt_UINF as HUU.
+  assert (Hcc : 1 <= snd g /\ snd g + 1 < 2 ^ 53) by (unfold lenZ in *; lia).
   assert (Hue : exists ue, e = FFin false ue /\ 0 <= ue < UOVER).
-  { unfold e, group_end in *. destruct (fst g <? n) eqn:E; fold n in E; rewrite E in *.
-    - apply Z.ltb_lt in E. destruct (orig_nth_facts (fst g) ltac:(lia)) as (_ & _ & H2).
-      destruct (nthZ orig (fst g) FNaN) as [| |se ue]; try discriminate.
-      destruct H2 as [Hr _]. apply fle_false in He0; auto. cbn in He0.
-      destruct se; cbn in He0; [lia|]. eauto.
-    - fold b in Hinf, Hen, He0, Hlt |- *.
-      assert (Hsh : pos_shape (fadd (fadd b (of_Z (snd g))) (of_Z 1))).
-      { rewrite !of_Z_int by (unfold lenZ in *; lia).
+  { destruct (group_end_cases (fst g) (snd g)) as [[E Heq]|[E Heq]]; rewrite <- Ee in Heq.
+    - destruct (orig_nth_facts (fst g) ltac:(lia)) as (_ & _ & H2). rewrite <- Heq in H2.
+      destruct e as [| |se ue]; try discriminate.
+      destruct H2 as [Hr _]. apply fle_false in He0; auto. cbn [ford fzero] in He0.
+      destruct se; [lia|]. eauto.
+    - rewrite <- Eb in Heq.
+      assert (Hsh : pos_shape e).
+      { rewrite Heq. rewrite !of_Z_int by lia.
         destruct b as [| |sb ub]; try discriminate.
-        - destruct neg; [cbn in Hfb; pose proof UINF_eq; assert (0 < 2 ^ 2100) by (apply pow2_pos'; lia); lia|].
-          right. reflexivity.
+        - destruct neg; [cbn [ford] in Hfb; lia|]. right. reflexivity.
         - destruct Hbw as [Hr _].
           assert (S1 : pos_shape (fadd (FFin sb ub) (fint (snd g)))).
-          { apply fadd_pos_shape; [lia | exact Hfb | apply fint_pos_shape; unfold lenZ in *; lia]. }
+          { apply fadd_pos_shape; [lia | exact Hfb | apply fint_pos_shape; lia]. }
           destruct S1 as [(u1 & -> & Hu1)| ->]; [|right; reflexivity].
-          apply fadd_pos_shape; [lia | cbn; lia | apply fint_pos_shape; lia]. }
-      destruct Hsh as [(u & Hu & Hb)| Hu]; rewrite Hu in *; [eauto | discriminate]. }
-  destruct Hue as (ue & He & Hue).
-  destruct b as [| |sb ub] eqn:Eb; try discriminate.
-  { (* b infinite: impossible, b < e and b >= 0 *)
-    rewrite He in Hlt. cbn in Hlt, Hfb. pose proof UOVER_lt_UINF.
-    destruct neg; cbn in *; [assert (0 < UINF) by (rewrite UINF_eq; apply pow2_pos'; lia); lia | lia]. }
-  assert (Hcc : 1 <= snd g /\ snd g + 1 < 2 ^ 53) by (unfold lenZ in *; lia).
-  unfold group_range in *. fold b e in Hvalid |- *. rewrite Eb in *. rewrite He in *.
-  pose proof (range_length sb ub ue (snd g)) as Hlen.
-  pose proof (range_In sb ub ue (snd g) Hbw Hue Hfb Hbe Hcc) as HIn.
-  pose proof (range_weakly_sorted sb ub ue (snd g) Hbw Hue Hfb Hbe Hcc) as Hws.
-  pose proof (limit_facts sb ub ue Hbw Hue Hfb Hbe) as (L1 & L2 & L3).
-  constructor; auto.
-  - apply sorted_distinct_strict; [|exact Hvalid]. constructor.
-    + (* R ++ [e] weakly sorted *)
-      clear Hvalid Hlen. revert HIn Hws. generalize (get_range (FFin sb ub) (FFin false ue) (snd g)) as R.
-      induction R as [|x R IHR]; intros HIn Hws; cbn; [repeat constructor|].
-      inversion Hws as [|? ? H1 H2]; subst. constructor.
-      * apply IHR; [intros; apply HIn; right; assumption | assumption].
-      * rewrite Forall_forall in *. intros z Hz. apply in_app_or in Hz. destruct Hz as [Hz|[<-|[]]]; [apply H2; exact Hz|].
-        destruct (HIn x (or_introl eq_refl)) as (u & -> & Hu). unfold Fle. apply fle_iff. cbn. repeat split; auto. lia.
-    + rewrite Forall_forall. intros z Hz. apply in_app_or in Hz. destruct Hz as [Hz|[<-|[]]].
-      * destruct (HIn z Hz) as (u & -> & Hu). unfold Fle. apply fle_iff. cbn [is_nan]. repeat split; auto.
-        cbn [ford] in *. destruct sb; cbn [ford] in *; lia.
-      * apply flt_fle. exact Hbe.
-  - rewrite Forall_forall. intros z Hz. destruct (HIn z Hz) as (u & -> & _). reflexivity.
+          apply fadd_pos_shape; [lia | cbn [ford]; lia | apply fint_pos_shape; lia]. }
+      destruct Hsh as [(u & Hu & Hb)| Hu]; [eauto | rewrite Hu in Hinf; discriminate]. }
+  destruct Hue as (ue & He & Hue). rewrite He in *.
+  destruct b as [| |sb ub]; try discriminate.
+  { cbn [ford] in Hlt, Hfb. destruct neg; lia. }
+  apply (good_from_shape g sb ub ue); auto.
 Qed.
 
 (* ---------------------------------------------------------------------------------------------- *)
@@ -300,10 +315,12 @@ Proof.
     { apply sorted_app_Flt; auto. intros x z Hx Hz. eapply flt_trans; [apply Hprev_b; exact Hx | apply HbR'; exact Hz]. }
     assert (Hstep : prep_inserts_at_index orig (mkwl [] prev) (fst g) (snd g) = Ok (mkwl [] (prev ++ R))).
     { unfold prep_inserts_at_index. replace (snd g <=? 0) with false by (symmetry; apply Z.leb_gt; lia).
-      rewrite !adj_get_key_noadj. fold (group_begin orig (fst g)). fold b.
-      change (if fst g <? lenZ orig then nthZ orig (fst g) FNaN else fadd (fadd b (of_Z (snd g))) (of_Z 1)) with e.
-      rewrite (gg_cond g Hg). cbn [adjs inss].
-      fold (group_range orig g). fold R.
+      rewrite !adj_get_key_noadj.
+      change (if 0 <? fst g then nthZ orig (fst g - 1) FNaN else fzero) with (group_begin orig (fst g)).
+      change (if fst g <? lenZ orig then nthZ orig (fst g) FNaN
+              else fadd (fadd (group_begin orig (fst g)) (of_Z (snd g))) (of_Z 1)) with (group_end orig (fst g) (snd g)).
+      fold b e. pose proof (gg_cond g Hg) as Hcond. fold b e in Hcond. rewrite Hcond. cbn [adjs inss].
+      change (get_range b e (snd g)) with R.
       rewrite (sl_update_sorted R prev Hsorted1).
       assert (Hir : sl_irange (prev ++ R) b e = R).
       { unfold sl_irange. rewrite filter_app. rewrite filter_none, filter_all; [reflexivity| |].
@@ -311,7 +328,7 @@ Proof.
         - intros x Hx. apply andb_false_intro1. specialize (Hprev_b x Hx). unfold Flt in Hprev_b.
           apply flt_iff in Hprev_b. destruct Hprev_b as (N1 & N2 & Hl). unfold fle. rewrite N1, N2. cbn.
           apply Z.leb_gt. exact Hl. }
-      rewrite Hir. rewrite (gg_valid g Hg). reflexivity. }
+      rewrite Hir. pose proof (gg_valid g Hg) as Hv. fold b e R in Hv. rewrite Hv. reflexivity. }
     cbn [bind]. rewrite Hstep.
     destruct (IH (prev ++ R) e) as [IH1 IH2]; [| exact Hsorted1 | exact Hrest |].
     + intros x Hx. apply in_app_or in Hx. destruct Hx as [Hx|Hx]; [|apply HRe'; exact Hx].
